@@ -55,6 +55,11 @@ MaxOf(Op(_), D, dflt) == IF D = {} THEN dflt
 MinOf(Op(_), D, dflt) == IF D = {} THEN dflt
                          ELSE -MaxOf(LAMBDA x : -Op(x), D, 0)
 
+\* names of a finite set of strings joined by ";" (arbitrary but fixed order)
+RECURSIVE JoinSet(_)
+JoinSet(T) == IF T = {} THEN ""
+              ELSE LET x == CHOOSE y \in T : TRUE
+                   IN IF T \ {x} = {} THEN x ELSE x \o ";" \o JoinSet(T \ {x})
 Card(S) == Cardinality(S)
 Choose2(n) == (n * (n - 1)) \div 2
 
